@@ -240,6 +240,7 @@ Proof.
     + intros Hs; inversion Hs; subst. congruence.
   - intros Hs; inversion Hs; subst. reflexivity.
   - intros Hs; inversion Hs; subst. cbn in Er. discriminate.
+  - intros Hs; inversion Hs; subst. reflexivity.
 Qed.
 
 End Enforcement.
